@@ -113,7 +113,7 @@ def run_1d(case, rec):
     else:
         L = float(q0*10**rng.uniform(-1.0, 0.3)) if "L" in geom else 0.0
         W = float(q0*10**rng.uniform(-1.3, -0.2)) if "W" in geom else 0.0
-        if "W" in geom and case["k"] % 4 == 1:
+        if "W" in geom and (case["k"] % 4 == 1 or (geom == "slit(L,W)" and (case["k"]//10) % 2 == 1)):
             W = float(q[0]*rng.uniform(1.1, 1.6))          # q < W: the reflected part of the window
         if W and np.any(q < W):
             rec.bucket("q<W")
@@ -159,9 +159,12 @@ def run_1d(case, rec):
     if geom == "slit(L,W)" and not ok:
         # listed finding: the average over the width direction uses a fixed 61-point rule, so the error does
         # not shrink when the calculation grid is refined; only that signature is classified
+        # (finest-grid result equals the 61-point average, over offsets k*W/30, of the exact length integrals)
         e4, e1 = float(np.max(errs[0])), float(np.max(errs[2]))
         if e1 > 0.5*e4:
-            key = "C04/slit-length-and-width-fixed-61-point-rule"
+            alt61 = np.array([np.mean([exact_slit(f, abs(qi + kk*W/30.0), L, 0.0) for kk in range(-30, 31)]) for qi in q])
+            if bool(np.all(np.abs(got - alt61) <= K*(h0/width)*S)):
+                key = "C04/slit-length-and-width-fixed-61-point-rule"
     if not ok and geom == "slit(0,W)" and np.any(q < W):
         # listed finding: the part of the window with |q+v| < 0.02 q_min is dropped (and the rest renormalised).
         # Only classify as that if the finest-grid result matches the integral with that part removed.
